@@ -9,7 +9,6 @@ From V Require Model.Date Model.Time Proofs.Time Proofs.C03.
 Import ListNotations.
 Open Scope Z_scope.
 Ltac Zify.zify_post_hook ::= Z.to_euclidean_division_equations.
-Set Default Timeout 120.
 
 Import Proofs.C03.   (* vdate, dn, add_days_ok, date_res, date_add_signed_trunc *)
 
